@@ -72,8 +72,8 @@ FrontOK(front) ==
     /\ \A i, j \in DOMAIN front : i # j => ~Dominates(front[i], front[j])
 
 \* run 2 must show exactly what run 1 showed, event for event
-Same(c) == run = 2 => Len(c) <= Len(ref) /\ c[Len(c)] = ref[Len(c)]
-SameEnd(c) == run = 2 => Len(c) = Len(ref)
+SameAsRun1(c) == run = 2 => Len(c) <= Len(ref) /\ c[Len(c)] = ref[Len(c)]
+SameLength(c) == run = 2 => Len(c) = Len(ref)
 
 \* ---- actions ---------------------------------------------------------------------------
 Start(r, k, l, h, z) ==
@@ -92,7 +92,7 @@ IterWith(b, mono) ==
     /\ (mono /\ kind = "so") => NotWorse(b)
     /\ best' = b
     /\ cur' = Append(cur, <<"Iter", b>>)
-    /\ Same(cur')
+    /\ SameAsRun1(cur')
     /\ UNCHANGED <<phase, run, kind, lo, hi, zero, ref>>
 Iter(b) == IterWith(b, TRUE)
 LegacyIter(b) == IterWith(b, FALSE)
@@ -105,7 +105,7 @@ DoneSO(reported, recomputed, vars) ==
     /\ FinalNotWorse(reported)
     /\ phase' = "done"
     /\ cur' = Append(cur, <<"Done", reported, vars>>)
-    /\ Same(cur') /\ SameEnd(cur')
+    /\ SameAsRun1(cur') /\ SameLength(cur')
     /\ UNCHANGED <<run, kind, lo, hi, zero, best, ref>>
 
 \* a multi-objective result (the `history` of these solvers is an indicator whose direction the crate leaves open:
@@ -115,7 +115,7 @@ DoneMO(front) ==
     /\ FrontOK(front)
     /\ phase' = "done"
     /\ cur' = Append(cur, <<"Done", [i \in DOMAIN front |-> <<front[i].vars, front[i].fit>>]>>)
-    /\ Same(cur') /\ SameEnd(cur')
+    /\ SameAsRun1(cur') /\ SameLength(cur')
     /\ UNCHANGED <<run, kind, lo, hi, zero, best, ref>>
 
 \* ---- design-level invariants (MC_Solver) -----------------------------------------------
